@@ -230,3 +230,21 @@ func (ex *Exec) termSize(t *Term) int {
 	}
 	return rec(t)
 }
+
+// domainSize returns the number of feasible values of a term that is a function of one
+// small variable not involved in multi-variable constraints (0 = unknown).
+func (ex *Exec) domainSize(t *Term) int {
+	sup := ex.ts.support(t)
+	if len(sup) != 1 || ex.multi[sup[0]] {
+		return 0
+	}
+	v := ex.ts.byID(sup[0])
+	if v == nil || v.w > 16 || v.w == 0 {
+		return 0
+	}
+	d := ex.doms[v.id]
+	if d == nil {
+		return 1 << v.w
+	}
+	return d.n
+}
